@@ -100,11 +100,13 @@ def check(ctx):
     ctx.run(J, "run_joint", batch=1, rule="J: all subsets (size >= 2) of 5-6 different lazy simulations computed in one dask.compute call vs each on its own", space="J joint graphs")
     # P: ONE preemption inside a task: a fused multislice block is parked at its k-th call into abTEM code, a second ready block runs to
     # completion, the first resumes (both roles).  thorough: EVERY call event k; quick: a uniform stride of the call events (reported as a cap)
-    PSIMS = [("crystal", None, "pix", "custom", 1), ("fp2", None, "waves", "custom", 1), ("atoms", 1, "annular", "grid", 2), ("crystal_fp", None, "seg", "custom", 1)]
-    nchunks = 8 if q else 32
-    PC = [{"space": "P", "p": p, "ep": ep, "d": d, "s": s_, "mb": mb, "chunk": [ci, nchunks], "max_points": 40 if q else None}
-          for (p, ep, d, s_, mb) in (PSIMS[:2] if q else PSIMS) for ci in range(nchunks)]
-    pres = ctx.run(PC, "run_preempt", batch=1, rule="P: single preemption of one fused block by another at every abTEM call event (thorough) / a uniform stride of them (quick)", space="P preemption")
+    PSIMS = [["ms", "crystal", None, "pix", "custom", 1], ["ms", "fp2", None, "waves", "custom", 1], ["prism"], ["ctf"],
+             ["ms", "atoms", 1, "multi", "grid", 2], ["ms", "ae2", None, "flex", "grid", 1], ["ms", "crystal_fp", None, "seg", "custom", 1]]
+    nchunks = 8 if q else 16
+    PC = [{"space": "P", "sim": sim, "point": j, "chunk": [ci, nchunks], "max_points": 40 if q else None}
+          for sim in (PSIMS[:4] if q else PSIMS) for j in range(2 if q else 4) for ci in range(nchunks)]
+    pres = ctx.run(PC, "run_preempt", batch=1, rule="P: single preemption of one task by another ready task, for every distinct pair of task kinds that are ready together "
+                   "(first 2 pairs quick / 4 thorough), at every abTEM call event (thorough) / a uniform stride of them (quick)", space="P preemption")
     ctx.extra["preemption_points_run"] = sum(r.get("tr", 0) for r in pres)
     ctx.extra["preemption_call_events_per_task"] = sorted({str(r.get("calls")) for r in pres})
     if q:
@@ -269,17 +271,32 @@ def run_preempt(c):
     def same(a, b):
         return len(a) == len(b) and all(x.shape == y.shape and err(x, y, RTOL_SAME, atol=1e-30) <= 1.0 for x, y in zip(a, b))
 
+    import abtem
+
+    sim = c["sim"]
+
     def execute(get):
-        b = U.builder("probe")
-        out = b.multislice(U.potential(c["p"], c["ep"]), scan=U.scan(c["s"]), detectors=U.detector(c["d"]), lazy=True, max_batch=c["mb"])
+        if sim[0] == "ms":
+            _, p, ep, d, s_, mb = sim
+            out = U.builder("probe").multislice(U.potential(p, ep), scan=U.scan(s_), detectors=U.detector(d), lazy=True, max_batch=mb)
+        elif sim[0] == "prism":
+            S = abtem.SMatrix(potential=U.potential("fp2", None, gpts=(24, 24)), semiangle_cutoff=20, energy=100e3, interpolation=2)
+            out = S.reduce(scan=abtem.CustomScan([[0.3, 0.4], [2.1, 1.7], [3.6, 2.9]]), ctf=abtem.CTF(semiangle_cutoff=20, energy=100e3, C10=abtem.distributions.from_values([10.0, 50.0])), lazy=True)
+        else:
+            w = abtem.Probe(semiangle_cutoff=25, energy=100e3, gpts=(16, 12), extent=(4, 3)).build(abtem.CustomScan([[0.5, 0.5], [1, 1], [2, 1.5]]), lazy=True, max_batch=1)
+            out = w.apply_ctf(abtem.CTF(defocus=abtem.distributions.from_values([10.0, 40.0, 70.0]), semiangle_cutoff=20), max_batch=1).diffraction_patterns(max_angle="valid")
         outs = out if isinstance(out, list) else [out]
         return [np.asarray(a) for a in dask.compute(*[o.array for o in outs], scheduler=get)]
 
-    r = PR.explore_pair(execute, same, max_points=c["max_points"], match="_extract_blockwise", chunk=tuple(c["chunk"]))
+    pts = PR.distinct_points(execute)
+    if c["point"] >= len(pts):
+        return {"viol": [], "obs": "n/a", "nt": False, "tr": 1, "notes": ["fewer than %d distinct ready-together task-kind pairs" % (c["point"] + 1)]}
+    nth, kinds = pts[c["point"]]
+    r = PR.explore_pair(execute, same, max_points=c["max_points"], nth_point=nth, chunk=tuple(c["chunk"]))
     viol = []
     if r["deviating"]:
-        viol.append({"key": "preemption/result-depends-on-interleaving", "msg": "preempting one multislice block by another at call events %r changes the result (%s)" % (r["deviating"][:3], c)})
-    return {"viol": viol, "obs": "pair %r calls %r" % (r.get("pair"), r.get("calls")), "nt": bool(r.get("pair")), "tr": r["runs"], "st": r["runs"], "ref": r["runs"], "calls": r.get("calls")}
+        viol.append({"key": "preemption/result-depends-on-interleaving", "msg": "preempting a %s task by a %s task at call events %r changes the result (%s)" % (kinds[0], kinds[1], r["deviating"][:3], c)})
+    return {"viol": viol, "obs": "pair %r calls %r" % (kinds, r.get("calls")), "nt": bool(r.get("pair")), "tr": r["runs"], "st": r["runs"], "ref": r["runs"], "calls": "%s:%s" % ("/".join(kinds), r.get("calls"))}
 
 
 # --------------------------------------------------------------------------------------------- R
